@@ -263,10 +263,49 @@ def programs_for(tier, seed):
     return ps
 
 
+def task_regimes(pd, cse, tier, seed):
+    """Concrete replays in value regimes (tiny states / controls, huge states): see pyh.regime_envs."""
+    import math
+    import random
+
+    p = pd
+    part = Part()
+    part.program(p.id)
+    part.fn("python.compile", "python.Model.model", "common.named_vector")
+    rng = random.Random(seed + 917)
+    for rnd in range(1 if tier == "quick" else 3):
+        for label, e in pyh.regime_envs(p, rng):
+            if label == "tiny-cov":
+                continue
+            kb = f"{p.id}/cse={int(cse)}/regime={label}"
+            info = {"program": p.id, "cse": cse, "kind": "regime", "regime": label}
+            try:
+                want = {s: X.evalf(p.update[s], e) for s in p.state}
+                mags = {s: X.evalmag(p.update[s], e) for s in p.state}
+            except (ZeroDivisionError, ValueError, OverflowError):
+                continue
+            if not all(math.isfinite(want[s]) and math.isfinite(mags[s]) for s in p.state):
+                continue
+            try:
+                got = concrete_model(p, cse, e)
+            except Exception as ex:
+                path = write_replay(PID, {"key": kb, "info": info, "inputs": e, "exception": f"{type(ex).__name__}: {ex}"})
+                part.violation(kb, f"Model.model raises {type(ex).__name__}: {ex} on a valid input in the {label} regime ({e})", path)
+                continue
+            bad = [s for s in p.state if not (math.isfinite(got[s]) and abs(got[s] - want[s]) <= 1e-9 * mags[s] + 1e-300)]
+            from .common import Q
+
+            part.record(Q("sat" if bad else "unsat", None, 0.0, ""), f"{kb}: model == specification relative to operand magnitude (concrete replay)")
+            if bad:
+                path = write_replay(PID, {"key": kb, "info": info, "inputs": e})
+                part.violation(kb, f"Model.model differs from the update expressions in the {label} regime at {e}: " + ", ".join(f"{s}: got {got[s]!r} expected {want[s]!r}" for s in bad[:3]), path)
+    return part.d
+
+
 def run(tier, seed):
     rep = Report(PID, tier, seed, "translation_validation")
     ps = programs_for(tier, seed)
-    tasks = [(task, (p, cse, tier, seed)) for p in ps for cse in (True, False)] + [(task_cse_pair, (p, tier, seed)) for p in ps]
+    tasks = [(task, (p, cse, tier, seed)) for p in ps for cse in (True, False)] + [(task_cse_pair, (p, tier, seed)) for p in ps] + [(task_regimes, (p, True, tier, seed)) for p in ps]
     for d in pmap(_dispatch, tasks):
         rep.merge(d)
     rep.bounds = {"programs": [p.id for p in ps], "cse": [True, False], "inputs": "all reals where the specification's denominators are non-zero", "outside": "floating-point rounding; programs outside the corpus; strapdown model is decided under C19"}
@@ -292,13 +331,24 @@ def replay(path):
     ps = {p.id: p for p in programs_for("thorough", int(r.get("seed", 0)))}
     p = ps[pid]
     env = r["inputs"]
-    want = pyh.evalf_spec(p.update, env)
+    if info.get("kind") == "regime":
+        import math
+
+        try:
+            got = concrete_model(p, cse, env)
+        except Exception as e:
+            print(f"REPRODUCED: real code raises {type(e).__name__}: {e}")
+            return 1
+        bad = {s: (got[s], X.evalf(p.update[s], env)) for s in p.state if not (math.isfinite(got[s]) and abs(got[s] - X.evalf(p.update[s], env)) <= 1e-9 * X.evalmag(p.update[s], env) + 1e-300)}
+        print("REPRODUCED:" if bad else "not reproduced", bad)
+        return 1 if bad else 0
+    want = pyh.evalf_spec(p.update, env) if info.get("kind") != "aliasing" else {}
     try:
-        got = concrete_model(p, cse, env)
+        got = concrete_model(p, cse, env) if info.get("kind") != "aliasing" else {}
     except Exception as e:
         print(f"REPRODUCED: real code raises {type(e).__name__}: {e}")
         return 1
-    bad = {s: (got[s], want[s]) for s in p.state if not approx_equal(got[s], want[s])}
+    bad = {s: (got[s], want[s]) for s in p.state if s in got and not approx_equal(got[s], want[s])}
     if info.get("kind") == "aliasing":
         e1, e2 = env["first"], env["second"]
         held = concrete_model_sequence(p, cse, [e1, e2], hold_first=True)
